@@ -167,27 +167,30 @@ func cmdCheck(args []string) int {
 
 // Merged is the union of shard reports.
 type Merged struct {
-	Reports     []map[string]any
-	Executions  int64
-	Transitions int64
-	TreeNodes   int64
-	Scenarios   int
-	ScenTotal   int
-	ByCost      map[string]int64
-	Outcomes    map[string]int64
-	MaxDepth    int
-	MaxThreads  int
-	Deadlocks   int64
-	Races       int64
-	Panics      int64
-	Capped      bool
-	CapReasons  []string
-	Incomplete  []string
-	Violations  []map[string]any
-	Samples     []any
-	Extra       map[string]int64
-	Rows        []any
-	AllRows     []any
+	Reports          []map[string]any
+	Executions       int64
+	Transitions      int64
+	TreeNodes        int64
+	Scenarios        int
+	ScenTotal        int
+	ByCost           map[string]int64
+	Outcomes         map[string]int64
+	MaxDepth         int
+	MaxThreads       int
+	Deadlocks        int64
+	Races            int64
+	Panics           int64
+	Capped           bool
+	CapReasons       []string
+	Incomplete       []string
+	Violations       []map[string]any
+	Samples          []any
+	Extra            map[string]int64
+	Rows             []any
+	AllRows          []any
+	OutcomeHashes    map[string]bool
+	HashesPartial    bool
+	MaxShardDistinct int
 }
 
 func runShards(b *build, id, tier string) (*Merged, error) {
@@ -240,7 +243,7 @@ func runShards(b *build, id, tier string) (*Merged, error) {
 		}(i)
 	}
 	wg.Wait()
-	m := &Merged{ByCost: map[string]int64{}, Outcomes: map[string]int64{}, Extra: map[string]int64{}}
+	m := &Merged{ByCost: map[string]int64{}, Outcomes: map[string]int64{}, Extra: map[string]int64{}, OutcomeHashes: map[string]bool{}}
 	for _, r := range results {
 		if r.err != nil {
 			return nil, r.err
@@ -256,6 +259,17 @@ func runShards(b *build, id, tier string) (*Merged, error) {
 		m.ScenTotal = int(num(rep["scenarios_total"]))
 		addMap(m.ByCost, rep["by_cost"])
 		addMap(m.Outcomes, rep["outcomes"])
+		d := int(num(rep["distinct_outcomes"]))
+		if hs, ok := rep["outcome_hashes"].([]any); ok && len(hs) == d {
+			for _, h := range hs {
+				m.OutcomeHashes[fmt.Sprint(h)] = true
+			}
+		} else if d > 0 {
+			m.HashesPartial = true
+		}
+		if d > m.MaxShardDistinct {
+			m.MaxShardDistinct = d
+		}
 		addMap(m.Extra, rep["extra"])
 		if d := int(num(rep["max_depth"])); d > m.MaxDepth {
 			m.MaxDepth = d
@@ -412,7 +426,16 @@ func conclude(id, tier string, m *Merged, b *build, start time.Time, writeEviden
 		seed, _ = strconv.Atoi(s)
 	}
 	exhaustive := !m.Capped && m.Scenarios == m.ScenTotal
-	distinct := len(m.Outcomes)
+	// distinct observed outcomes: exact union of per-shard hash sets when every shard
+	// sent its set; otherwise a conservative lower bound (the largest single shard)
+	distinct := len(m.OutcomeHashes)
+	distinctNote := "exact (union of outcome hashes over all shards)"
+	if m.HashesPartial {
+		if m.MaxShardDistinct > distinct {
+			distinct = m.MaxShardDistinct
+		}
+		distinctNote = "lower bound (largest per-shard count; some shards had too many outcomes to ship their hash sets)"
+	}
 	outKeys := make([]string, 0, len(m.Outcomes))
 	for k := range m.Outcomes {
 		outKeys = append(outKeys, k)
@@ -431,6 +454,7 @@ func conclude(id, tier string, m *Merged, b *build, start time.Time, writeEviden
 		"traces_validated_against_impl": m.Executions,
 		"evaluations":                   m.Executions,
 		"distinct_nontrivial":           distinct,
+		"distinct_nontrivial_note":      distinctNote,
 		"rule":                          "every scenario of the property's closed alphabet is explored exhaustively within its deviation bound; an execution is one run of the real flyt code; outcomes are distinct observation signatures (callback traces / return values / completion orders)",
 		"samples":                       samples,
 		"exhaustive":                    exhaustive,
